@@ -12,7 +12,7 @@ from vf.core import Ctx, Machinery
 
 TOKENS = ['_http', '_', '_a-b', '_a--b', '_-a', '_a-', '_1234', '_' + 'a' * 15, '_' + 'a' * 16, '_a_b', '_sub', '',
           'inst', 'in st', '\x07x', 'x' * 63, 'x' * 64, '_tcp', '_udp', 'local', '_TCP', 'é' * 31 + 'a', 'é' * 32,
-          '_ab\n']
+          '_ab\n', '100%d', '{0}%s']      # (format directives: the name ends up inside an error message)
 PROTO = ['_tcp', '_udp', '_TCP']
 
 
@@ -66,12 +66,13 @@ def enum_names(ctx: Ctx, rng: random.Random) -> List[str]:
     return list(names)
 
 
-POOL = list('abzAZ09-_. =') + ['\x00', '\x1f', '\x7f', '\n', 'é', 'ß', '日', '😀', ' ']
+POOL = list('abzAZ09-_. =%{}') + ['%s', '%d', '%(x)s', '\x00', '\x1f', '\x7f', '\n', 'é', 'ß', '日', '😀', ' ']
 
 
 def gen_names(ctx: Ctx, rng: random.Random, n: int) -> List[str]:
     seeds = ['_http._tcp.local.', 'My Printer._ipp._tcp.local.', 'a.b.c._x-y._udp.local.', '_printer._sub._http._tcp.local.',
-             'Dotted.Name.Here._airplay._tcp.local.', 'x.local.', '_a1._tcp.local.', 'café._http._tcp.local.']
+             'Dotted.Name.Here._airplay._tcp.local.', 'x.local.', '_a1._tcp.local.', 'café._http._tcp.local.',
+             'Disk 100% full._http._tcp.local.', '{name}._ipp._tcp.local.']
     out = []
     for _ in range(n):
         r = rng.random()
